@@ -215,16 +215,22 @@ def applyCfg (T : Tables) (v : AccView) (cfg : PropMap) : AccView :=
 def mainUnitOf (views : List (Name × AccView)) : Option String :=
   match aget? views "value" with
   | some v => if v.isCmd then none else match v.tree with
-    | some t => match t.props.get? "unit" with
+    | some t => match t.unitOf with
       | some u => if unquote u == "" then none else some (unquote u)
       | none => none
     | none => none
   | none => none
 
+/-- `Parameter.finish` (params.py:299-309) on the copy, after the configuration: a parameter with a constant is read-only -/
+def finishView (v : AccView) : AccView :=
+  match v.isCmd, v.props.get? "constant" with
+  | false, some c => if c == "null" then v else { v with props := v.props.put "readonly" "true" }
+  | _, _ => v
+
 /-- the accessibles of a new instance of a class whose accessibles look like `views`
-(`Module.__init__`, modulebase.py:384-412: copy, apply cfg, main unit) -/
+(`Module.__init__`, modulebase.py:384-412: copy, apply cfg, finish, main unit) -/
 def instViews (T : Tables) (views : List (Name × Option AccView)) (cfg : List (Name × PropMap)) : List (Name × AccView) :=
-  let copied := views.filterMap (fun nv => nv.2.map (fun v => (nv.1, applyCfg T v ((aget? cfg nv.1).getD []))))
+  let copied := views.filterMap (fun nv => nv.2.map (fun v => (nv.1, finishView (applyCfg T v ((aget? cfg nv.1).getD [])))))
   match mainUnitOf copied with
   | some u => copied.map (fun nv => if nv.2.isCmd then nv else
       (nv.1, { nv.2 with tree := nv.2.tree.map (DTree.mainUnit (fun p => quote ((unquote p).replace "$" u))) }))
